@@ -36,11 +36,22 @@ SIZES = [0, 1, 8191, 8192, 8193, 102400]
 # target names near NAME_MAX (255): "<name>.tmp.<pid>" fits up to about 243..245 characters, then not at all
 NAME_LENS = [240, 243, 244, 245, 246, 247, 248, 249, 250, 251, 252, 253, 254, 255]
 MODES = ["0600", "0644", "0755", "0444"]
+# modes with set-user-ID / set-group-ID / sticky bits (H1: chown(2) after chmod(2) clears 04000 and, for a
+# group-executable file, 02000; "2644" and "1755" are controls the kernel leaves alone)
+SMODES = ["2755", "4755", "6755", "4711", "2750", "2644", "1755", "6644"]
 MODE_FAIL = "permission bits of the original not carried by the target"
 
 
 def _mode(s):
     return int(s, 8)
+
+
+def kill_sugid(m):
+    """what Linux chown(2) leaves of the mode bits `m` of a regular file"""
+    m1 = m & ~0o4000
+    if (m1 & 0o2000) and (m1 & 0o010):
+        m1 &= ~0o2000
+    return m1
 
 
 IPY_TARGET = "ipython/profile_default/ipython_config.py"
@@ -78,6 +89,7 @@ class C08(Prop):
         "Pfb.C08.C08_mode_partial",
         "Pfb.C08.C08_mode_strict",
         "Pfb.C08.C08_mode_false_witness",
+        "Pfb.C08.C08_mode_sugid_witness",
         "Pfb.C08.C08_two_writers",
         "Pfb.C08.C08_two_writers_final",
         "Pfb.C08.C08_ops_trace",
@@ -99,7 +111,8 @@ class C08(Prop):
             "entry (atomic_write_file | bin/tidy-imports --replace | install_in_ipython_config_file with the config a file/"
             "symlink/symlink chain/missing) x target names up to NAME_MAX x same-Filename-object-then-chmod sequences x "
             "{crash at call k, OSError at call k, OSError then crash, RLIMIT_FSIZE, two-writer schedule} + source audit of "
-            "write sites; sizes {0,1,8191,8192,8193,102400}, modes {0600,0644,0755,0444}; non-trivial = the child reached "
+            "write sites; sizes {0,1,8191,8192,8193,102400}, modes {0600,0644,0755,0444} + set-uid/set-gid/sticky modes "
+            "{2755,4755,6755,4711,2750,2644,1755,6644}; injected errnos {EIO,ENOSPC,EACCES,EPERM,EROFS,EDQUOT,ESTALE,ENOENT}; non-trivial = the child reached "
             "at least one intercepted call; distinct by the whole case")
     trusted_base = [
         "the kernel's rename(2) atomicity, open(O_CREAT|O_TRUNC) and chmod/chown semantics (modelled, not verified)",
@@ -144,6 +157,7 @@ class C08(Prop):
         self.root_user = (os.geteuid() == 0)
         self.old_gid = 4242 if self.root_user else os.getegid()
         self._strict = None
+        self._cf = None
 
     def teardown(self):
         d = getattr(self, "scratch", None)
@@ -166,11 +180,24 @@ class C08(Prop):
         an OSError injected at chmod either is swallowed (the tree as found) or propagates (after fix D6)."""
         self.env()
         if self._strict is None:
-            case = dict(kind="fault", via="func", old=dict(size=1, mode="0600"), new_size=1, cap=None, stale=None,
-                        k=4, errno="EIO")
+            base = dict(via="func", old=dict(size=1, mode="0600"), new_size=1, cap=None, stale=None)
+            ops = [c["op"] for c in self.run_impl(dict(base, kind="crash", k=10 ** 6))["calls"]]
+            case = dict(base, kind="fault", k=ops.index("chmod") if "chmod" in ops else 4, errno="EIO")
             obs = self.run_impl(case)
             self._strict = obs["fin"] != "returned"
         return self._strict
+
+    def chown_first(self):
+        """In which order does the implementation copy mode and group?  Probed once on the real code (fault-free
+        run): chmod then chown (the tree as found, H1) or chown then chmod (fixes/C08-H1.diff).  Selects the
+        model's program (`atomicWriteOps` / `atomicWriteOpsCF`)."""
+        self.env()
+        if self._cf is None:
+            case = dict(kind="crash", via="func", old=dict(size=1, mode="0600"), new_size=1, cap=None, stale=None,
+                        k=10 ** 6)
+            ops = [c["op"] for c in self.run_impl(case)["calls"]]
+            self._cf = ("chown" in ops and "chmod" in ops and ops.index("chown") < ops.index("chmod"))
+        return self._cf
 
     # ------------------------------------------------------------ scenarios
     @staticmethod
@@ -222,9 +249,9 @@ class C08(Prop):
         real = config if layout == "file" else os.path.join(root, IPY_REAL)
         with open(real, "wb") as f:
             f.write(self._old_bytes(case))
-        os.chmod(real, _mode(case["old"]["mode"]))
         if self.root_user:
             os.chown(real, -1, self.old_gid)
+        os.chmod(real, _mode(case["old"]["mode"]))       # (after the chown, which clears set-uid/set-gid bits)
         if layout == "link":
             os.symlink(real, config)
         elif layout == "chain":
@@ -241,9 +268,9 @@ class C08(Prop):
         if ob is not None:
             with open(path, "wb") as f:
                 f.write(ob)
-            os.chmod(path, _mode(case["old"]["mode"]))
             if self.root_user:
                 os.chown(path, -1, self.old_gid)
+            os.chmod(path, _mode(case["old"]["mode"]))   # (after the chown, which clears set-uid/set-gid bits)
         return path
 
     def _prepare(self, root, stale, tag, name=TARGET):
@@ -381,12 +408,20 @@ class C08(Prop):
         lo = max(1, size // 24)
         return rng.choice([lo, size // 2, size // 2 + 1, size - 1, 4096, 4097, 5000, lo + 7])
 
+    def _rmode(self, rng):
+        """a permission mode; one in four carries set-user-ID / set-group-ID / sticky bits"""
+        return rng.choice(SMODES) if rng.random() < 0.25 else rng.choice(MODES)
+
+    def _rerrno(self, rng):
+        """errno of an injected OSError; ENOENT (which `stat` reports for a file that is gone) one time in six"""
+        return "ENOENT" if rng.random() < 1 / 6 else rng.choice(G.ERRNOS)
+
     def _rand_config(self, rng, via=None):
         if via is None:
             r = rng.random()
             via = "cmdline" if r < 0.12 else ("ipyconfig" if r < 0.17 else "func")
         if via == "cmdline":
-            old = dict(size=rng.choice([40, 200, 8191, 8192, 8193, 20000]), mode=rng.choice(MODES))
+            old = dict(size=rng.choice([40, 200, 8191, 8192, 8193, 20000]), mode=self._rmode(rng))
             cfg = dict(via=via, old=old, new_size=None, cap=self._cap_for(rng, old["size"]),
                        stale=None if rng.random() < 0.8 else dict(size=rng.choice([0, 50]), mode=rng.choice(MODES)))
             if rng.random() < 0.25:     # chmod between the argument expansion and the replacement
@@ -394,8 +429,8 @@ class C08(Prop):
             return cfg
         if via == "ipyconfig":
             return dict(via=via, layout=rng.choice(IPY_LAYOUTS), old=dict(size=rng.choice([0, 300, 8193, 20000]),
-                        mode=rng.choice(MODES)), new_size=None, cap=rng.choice([None, None, 100, 4096]), stale=None)
-        old = None if rng.random() < 0.12 else dict(size=rng.choice(SIZES), mode=rng.choice(MODES))
+                        mode=self._rmode(rng)), new_size=None, cap=rng.choice([None, None, 100, 4096]), stale=None)
+        old = None if rng.random() < 0.12 else dict(size=rng.choice(SIZES), mode=self._rmode(rng))
         ns = rng.choice(SIZES + [2, 100, 4096, 4097, 12289])
         stale = None if rng.random() < 0.75 else dict(size=rng.choice([0, 1, 50, 9000]), mode=rng.choice(MODES))
         cfg = dict(via=via, old=old, new_size=ns, cap=self._cap_for(rng, ns), stale=stale)
@@ -405,12 +440,12 @@ class C08(Prop):
         elif r < 0.3 and old is not None:
             # the same Filename object is looked at, the owner changes the mode, then the file is replaced
             cfg["pre"] = rng.choice(["isfile", "expand", "expanddir", "write"])
-            cfg["chmod_to"] = rng.choice([m for m in MODES + ["0640", "0400"] if m != old["mode"]])
+            cfg["chmod_to"] = rng.choice([m for m in MODES + ["0640", "0400", "2755", "4755"] if m != old["mode"]])
         return cfg
 
     def _rand_sched(self, rng, base=None):
         c = base or dict(via="func",
-                         old=None if rng.random() < 0.1 else dict(size=rng.choice([0, 1, 100, 8193]), mode=rng.choice(MODES)),
+                         old=None if rng.random() < 0.1 else dict(size=rng.choice([0, 1, 100, 8193]), mode=self._rmode(rng)),
                          new_size=rng.choice([0, 1, 60, 8191, 8193, 20000]),
                          new_size_b=rng.choice([0, 2, 70, 8192, 9000, 30000]),
                          stale=None if rng.random() < 0.8 else dict(size=40, mode=rng.choice(MODES)),
@@ -455,7 +490,7 @@ class C08(Prop):
         if r < 0.58:
             return dict(cfg, kind="crash", k=k)
         k = min(k, max(0, n - 1))
-        en = rng.choice(G.ERRNOS)
+        en = self._rerrno(rng)
         if r < 0.84:
             return dict(cfg, kind="fault", k=k, errno=en)
         if cfg["via"] == "ipyconfig":
@@ -510,6 +545,48 @@ class C08(Prop):
                 out.append(dict(cfg, kind="crash", k=10 ** 6))
         return out
 
+    def _bits_cases(self, thorough):
+        """H1: previous modes with set-user-ID / set-group-ID / sticky bits — every crash point, every fault position
+        (so also an error at chown, after which the bits survive in either order), fault-then-crash, all entries, two
+        writers.  H3: ENOENT injected at every call position (at `stat` it is taken for "no previous file")."""
+        out = []
+        def all_points(cfg, errnos=None, faultcrash=True):
+            n = self.ncalls(cfg)
+            for k in range(n + 1):
+                out.append(dict(cfg, kind="crash", k=k))
+            for k in range(n):
+                en = errnos[k % len(errnos)] if errnos else G.ERRNOS[(k + len(out)) % len(G.ERRNOS)]
+                out.append(dict(cfg, kind="fault", k=k, errno=en))
+                if faultcrash:
+                    for j in range(k + 1, self.ncalls_fault(cfg, k, en)):
+                        out.append(dict(cfg, kind="faultcrash", k=k, errno=en, j=j))
+        for i, m in enumerate(SMODES):
+            cfg = dict(via="func", old=dict(size=100, mode=m), new_size=[60, 8193, 0][i % 3], cap=None, stale=None)
+            all_points(cfg, faultcrash=thorough or i < 2)
+            if thorough or i in (0, 1):
+                all_points(dict(via="cmdline", old=dict(size=200, mode=m), new_size=None, cap=None, stale=None),
+                           faultcrash=thorough)
+            if thorough or i == 2:
+                all_points(dict(via="ipyconfig", layout="file" if i % 2 == 0 else "link", old=dict(size=300, mode=m),
+                                new_size=None, cap=None, stale=None), faultcrash=False)
+            # a stale temp file that itself carries the bits; the owner sets the bits right before the replacement
+            out.append(dict(via="func", old=dict(size=100, mode="0644"), new_size=60, cap=None,
+                            stale=dict(size=50, mode=m), kind="crash", k=10 ** 6))
+            out.append(dict(via="func", old=dict(size=100, mode="0755"), new_size=60, cap=None, stale=None,
+                            pre="isfile", chmod_to=m, kind="crash", k=10 ** 6))
+            out.append(dict(via="func", old=dict(size=100, mode=m), new_size=60, new_size_b=70, cap=None, cap_b=None,
+                            stale=None, stale_b=None, kind="sched", sched="ABABABABABABAB"))
+            out.append(dict(via="func", old=dict(size=100, mode=m), new_size=60, new_size_b=70, cap=None, cap_b=None,
+                            stale=None, stale_b=None, kind="sched", sched="AAAABBBBBBBAAA"))
+        # ENOENT as the injected errno, at every position
+        for cfg in [dict(via="func", old=dict(size=100, mode="0600"), new_size=60, cap=None, stale=None),
+                    dict(via="func", old=dict(size=100, mode="4755"), new_size=8193, cap=None, stale=None),
+                    dict(via="func", old=None, new_size=60, cap=None, stale=None),
+                    dict(via="cmdline", old=dict(size=200, mode="0600"), new_size=None, cap=None, stale=None),
+                    dict(via="ipyconfig", layout="file", old=dict(size=300, mode="0600"), new_size=None, cap=None, stale=None)]:
+            all_points(cfg, errnos=["ENOENT"], faultcrash=thorough or cfg["via"] == "func")
+        return out
+
     def exhaustive_cases(self, tier, rng):
         self.env()
         out = []
@@ -559,6 +636,7 @@ class C08(Prop):
                     for j in range(k + 1, self.ncalls_fault(cfg, k, en)):
                         out.append(dict(cfg, kind="faultcrash", k=k, errno=en, j=j))
         out.extend(self._site_cases(thorough))
+        out.extend(self._bits_cases(thorough))
         # two writers: all interleavings of the two 7-call skeletons (thorough) / a sample (quick)
         base = dict(via="func", old=dict(size=100, mode="0600"), new_size=60, new_size_b=70, cap=None, cap_b=None,
                     stale=None, stale_b=None)
@@ -592,7 +670,8 @@ class C08(Prop):
                                         cap=None, stale=None, inject=None if syscall is None else [syscall, action]))
         # the audit and the other call sites first (they are few, and a truncated run must not skip them)
         out.sort(key=lambda c: 0 if c.get("kind") == "audit" else 1 if c.get("via") == "ipyconfig"
-                 else 2 if (c.get("pre") or c.get("chmod_to")) else 3)
+                 else 2 if (c.get("pre") or c.get("chmod_to")) else 3 if (c.get("old") or {}).get("mode") in SMODES
+                 or c.get("errno") == "ENOENT" else 4)
         return out
 
     def search_cases(self, rng, disagreeing, budget):
@@ -805,7 +884,30 @@ class C08(Prop):
                 and fl.get("fault_op") in ("stat", "chmod") and fl.get("fin") == "returned"
                 and fl.get("content") in ("new", "old=new"))
 
-    families = {"D6_mode_dropped_on_stat_or_chmod_error": _fam_d6.__func__}
+    # known-finding family H1 — chmod(tmp, st_mode) is followed by chown(tmp, -1, st_gid), and chown(2) clears the
+    # set-user-ID bit and (for a group-executable file) the set-group-ID bit.  Narrow: the ONLY complaint is the mode, the
+    # previous mode had such a bit, what the target carries is exactly what chown(2) leaves of the previous mode, and the
+    # target holds the complete new contents (the replacement happened).
+    @staticmethod
+    def _fam_h1(case, fl):
+        if fl.get("what") != MODE_FAIL or not fl.get("want") or not fl.get("got"):
+            return False
+        want, got = _mode(fl["want"]), _mode(fl["got"])
+        return (want != got and got == kill_sugid(want) and fl.get("content") is not None
+                and any(w.startswith("new") for w in str(fl["content"]).split("=")))
+
+    # known-finding family H3 — a single injected ENOENT at the `stat` of the target is taken for "there was no previous
+    # file": the replacement goes ahead with the temp file's own bits.  Narrow: the injected errno is ENOENT, it hit
+    # `stat`, the target holds the complete new contents, the only complaint is the mode.
+    @staticmethod
+    def _fam_h3(case, fl):
+        return (case.get("kind") in ("fault", "faultcrash") and case.get("errno") == "ENOENT"
+                and fl.get("what") == MODE_FAIL and fl.get("fault_op") == "stat"
+                and fl.get("content") in ("new", "old=new"))
+
+    families = {"D6_mode_dropped_on_stat_or_chmod_error": _fam_d6.__func__,
+                "H1_sugid_bits_cleared_by_chown_after_chmod": _fam_h1.__func__,
+                "H3_mode_dropped_on_injected_ENOENT_at_stat": _fam_h3.__func__}
 
     # ------------------------------------------------------------------ model
     @staticmethod
@@ -831,11 +933,11 @@ class C08(Prop):
 
     def model_requests(self, case, obs):
         if case["kind"] == "audit":
-            return [dict(op="run", strict=False, target="t", dflt=420, dgid=0, namemax=255, old=None, pid=1, chunks=[],
+            return [dict(op="run", strict=False, cf=False, target="t", dflt=420, dgid=0, namemax=255, old=None, pid=1, chunks=[],
                          stale=None, fuel=0, fault=None)]
         e = obs["env"]
         ob = self._old_bytes(case)
-        base = dict(strict=self.strict(), target=tname(case), dflt=_mode(e["dflt"]), dgid=e["egid"], namemax=e["name_max"],
+        base = dict(strict=self.strict(), cf=self.chown_first(), target=tname(case), dflt=_mode(e["dflt"]), dgid=e["egid"], namemax=e["name_max"],
                     old=None if ob is None else
                     self._filej(len(ob), self._old_mode(case), self._old_gid(case), 0))
         if case["kind"] == "sched":
@@ -872,7 +974,8 @@ class C08(Prop):
                     break
         elif case["kind"] == "strace" and case.get("inject"):
             sysc, action = case["inject"]
-            idx = {"chmod": 3, "chown": 4, "rename": 5}[sysc] + len(ch)
+            idx = ({"chown": 3, "chmod": 4, "rename": 5} if self.chown_first() else
+                   {"chmod": 3, "chown": 4, "rename": 5})[sysc] + len(ch)
             if action.startswith("error="):
                 req["fault"] = dict(at=idx, errno=getattr(_errno, action.split("=")[1]))
             else:
@@ -1076,6 +1179,10 @@ class C08(Prop):
         inc("new_size_%s" % case.get("new_size"))
         if case.get("cap"):
             inc("short_writes")
+        if (case.get("old") or {}).get("mode") in SMODES or case.get("chmod_to") in SMODES:
+            inc("sugid_or_sticky_mode")
+        if case.get("errno") == "ENOENT":
+            inc("errno_ENOENT")
         if case.get("stale"):
             inc("stale_temp")
         k = case.get("k")
